@@ -59,3 +59,4 @@ def oracle(c, got):
 
 
 repro = c06.repro
+shrink = c06.shrink
